@@ -195,7 +195,55 @@ class Ctx:
                 out.append(json.loads(line))
         return out
 
-    def validate(self, module, cfg, trace_path, env=None, workers=16, fanout=64, **kw):
+    CHUNK_BYTES = int(os.environ.get("VERIF_CHUNK_MB", "60")) * 1024 * 1024      # a trace module reads its whole log into TLC values: logs are judged in pieces of about this size
+
+    def _chunks(self, trace_path):
+        """split a log into pieces (whole lines) of about CHUNK_BYTES; yields (path, first_line_number - 1, number_of_lines)"""
+        if os.path.getsize(trace_path) <= self.CHUNK_BYTES * 3 // 2:
+            yield trace_path, 0, sum(1 for _ in open(trace_path))
+            return
+        k, off, cnt, size, out = 0, 0, 0, 0, None
+        with open(trace_path) as f:
+            for line in f:
+                if out is None:
+                    k += 1
+                    cp = "%s.part%d" % (trace_path, k)
+                    out = open(cp, "w")
+                out.write(line)
+                cnt += 1
+                size += len(line)
+                if size >= self.CHUNK_BYTES:
+                    out.close(); out = None
+                    yield cp, off, cnt
+                    os.remove(cp)
+                    off, cnt, size = off + cnt, 0, 0
+        if out is not None:
+            out.close()
+            yield cp, off, cnt
+            os.remove(cp)
+
+    def validate(self, module, cfg, trace_path, **kw):
+        """stateless trace validation of a log of any size (judged in pieces): {line -> [clauses]}"""
+        rej, extra = {}, {}
+        for cp, off, cnt in self._chunks(trace_path):
+            r1 = self._validate_one(module, cfg, cp, **kw)
+            for l, c in r1.items():
+                rej[l + off] = c
+            for l, x in self.reject_extra.items():
+                extra[l + off] = x
+        self.reject_extra = extra
+        return rej
+
+    def validate_execs(self, module, cfg, trace_path, **kw):
+        """stateful trace validation of a log of any size (judged in pieces): {execution -> (clauses, step)} (or lists with multi=True)"""
+        rej = {}
+        for cp, off, cnt in self._chunks(trace_path):
+            r1 = self._validate_execs_one(module, cfg, cp, **kw)
+            for x, v in r1.items():
+                rej[x + off] = v
+        return rej
+
+    def _validate_one(self, module, cfg, trace_path, env=None, workers=16, fanout=64, **kw):
         """stateless trace validation: returns {line -> [clauses]} for rejected lines.
         TLC prints <<"REJECT", line, {clauses}>>; the number of distinct states must
         equal the number of lines (otherwise the model is broken)."""
@@ -224,7 +272,7 @@ class Ctx:
         self.traces += n
         return rej
 
-    def validate_execs(self, module, cfg, trace_path, env=None, workers=16, allow_unfinished=False, multi=False, **kw):
+    def _validate_execs_one(self, module, cfg, trace_path, env=None, workers=16, allow_unfinished=False, multi=False, **kw):
         """stateful trace validation: every line of trace_path is one execution (x = line number);
         the trace module prints <<"DONE", x>> for a fully explained execution and
         <<"REJECT", x, {clauses}, l>> for one that cannot be continued at event l.
